@@ -16,9 +16,9 @@ import (
 )
 
 // control-flow signals (Go panics used for non-local exit)
-type pathEnd struct{ reason string }      // path abandoned (infeasible / assume false)
-type goPanic struct{ site, what string }  // a Go run-time panic in the code under execution
-type engineErr struct{ msg string }       // unsupported construct / internal error => inconclusive
+type pathEnd struct{ reason string }     // path abandoned (infeasible / assume false)
+type goPanic struct{ site, what string } // a Go run-time panic in the code under execution
+type engineErr struct{ msg string }      // unsupported construct / internal error => inconclusive
 
 type decision struct {
 	n int   // number of alternatives at this point
@@ -27,11 +27,11 @@ type decision struct {
 }
 
 type AssertRec struct {
-	Label    string
-	Outcome  string // "proved", "violated", "unknown"
-	Witness  map[string]string
-	PathID   string
-	Site     string
+	Label   string
+	Outcome string // "proved", "violated", "unknown"
+	Witness map[string]string
+	PathID  string
+	Site    string
 }
 
 type Frame struct {
@@ -42,9 +42,9 @@ type Frame struct {
 }
 
 type Exec struct {
-	W   *Worker
-	tb  *TB
-	sol *Solver
+	W    *Worker
+	tb   *TB
+	sol  *Solver
 	prog *ssa.Program
 
 	decisions []decision // prefix to replay, then extended
@@ -59,40 +59,47 @@ type Exec struct {
 	depth   int
 	frame   *Frame
 
-	nondets  []*Term          // symbols whose model values go to witnesses
+	nondets    []*Term           // symbols whose model values go to witnesses
 	nondetInfo map[string]string // name -> kind
-	asserts  []AssertRec
-	probes   []probeRec
-	funcs    map[string]bool
-	assumes  []string
-	events   []string // engine-level observations (global writes, ambient calls...)
-	envs     []*EnvState
-	initRun  map[*ssa.Package]bool
-	lenBounds map[int]int64
+	asserts    []AssertRec
+	probes     []probeRec
+	funcs      map[string]bool
+	assumes    []string
+	events     []string        // engine-level observations (global writes, ambient calls...)
+	goroutines []func()        // spawned, not yet run (see joinGoroutines)
+	panics     []*pendingPanic // Go panics whose deferred calls are running (innermost last)
+	// package-level memory accessed while tracking is on (verifrt.Parallel): object -> site
+	trackAcc     bool
+	accR, accW   map[interface{}]string
+	lockDepth    int  // mutexes held (accesses under a lock are synchronised)
+	raced        bool // the last Parallel found conflicting unsynchronised accesses
+	envs         []*EnvState
+	initRun      map[*ssa.Package]bool
+	lenBounds    map[int]int64
 	exactFromHex bool
-	initPkg  *ssa.Package
-	onceDone map[*Cell]bool
-	syncMaps map[*Cell]*MapV
-	namePrefix string
-	prefixStack []string
-	choiceMemo map[string]int
+	initPkg      *ssa.Package
+	onceDone     map[*Cell]bool
+	syncMaps     map[*Cell]*MapV
+	namePrefix   string
+	prefixStack  []string
+	choiceMemo   map[string]int
 	abstractAddr map[int]bool
-	pcSet    map[int]bool
-	subst    map[int]*Term
-	simpMemo map[int]*Term
-	initNotes []string
-	tier     int
-	nondetRecs []NondetRec
-	covers   []string
-	lastPanic string
+	pcSet        map[int]bool
+	subst        map[int]*Term
+	simpMemo     map[int]*Term
+	initNotes    []string
+	tier         int
+	nondetRecs   []NondetRec
+	covers       []string
+	lastPanic    string
 	panicsCaught []string
-	keccakApps []keccakApp
-	axioms   []*Term
-	choiceLog []string
-	allocSeq int
-	catchDepth int
-	unwind   int
-	callStack []string
+	keccakApps   []keccakApp
+	axioms       []*Term
+	choiceLog    []string
+	allocSeq     int
+	catchDepth   int
+	unwind       int
+	callStack    []string
 }
 
 type probeRec struct {
@@ -432,11 +439,24 @@ func (e *Exec) globalCell(g *ssa.Global) *Cell {
 	return c
 }
 
-func (e *Exec) noteGlobalWrite(what string) {
+func (e *Exec) noteGlobalWrite(what string, obj ...interface{}) {
 	if e.inInit {
 		return
 	}
 	e.events = append(e.events, "global-write: "+what+" @ "+e.where())
+	if e.trackAcc && e.lockDepth == 0 {
+		for _, o := range obj {
+			e.accW[o] = what + " @ " + e.where()
+		}
+	}
+}
+
+func (e *Exec) noteGlobalRead(obj interface{}) {
+	if e.trackAcc && e.lockDepth == 0 && !e.inInit {
+		if _, seen := e.accR[obj]; !seen {
+			e.accR[obj] = e.where()
+		}
+	}
 }
 
 func (e *Exec) load(p Value) Value {
@@ -445,8 +465,14 @@ func (e *Exec) load(p Value) Value {
 		if x.c == nil {
 			e.goPanicNow("nil pointer dereference")
 		}
+		if x.c.global && e.trackAcc {
+			e.noteGlobalRead(x.c)
+		}
 		return copyVal(x.c.v)
 	case *BytePtrV:
+		if x.a.global && e.trackAcc {
+			e.noteGlobalRead(x.a)
+		}
 		return x.a.b[x.i]
 	}
 	e.fail("load %T", p)
@@ -460,13 +486,13 @@ func (e *Exec) store(p Value, v Value) {
 			e.goPanicNow("nil pointer dereference")
 		}
 		if x.c.global {
-			e.noteGlobalWrite("cell")
+			e.noteGlobalWrite("cell", x.c)
 		}
 		x.c.v = copyVal(v)
 		return
 	case *BytePtrV:
 		if x.a.global {
-			e.noteGlobalWrite("byte")
+			e.noteGlobalWrite("byte", x.a)
 		}
 		x.a.b[x.i] = v.(*Term)
 		return
@@ -618,8 +644,50 @@ func (e *Exec) run(fn *ssa.Function, args []Value, bindings []Value) Value {
 	for i, fv := range fn.FreeVars {
 		fr.locals[fv] = bindings[i]
 	}
+	return e.execFrom(fr, fn, fn.Blocks[0], name)
+}
+
+// pendingPanic is a Go panic whose deferred calls are being run; recover() stops it.
+type pendingPanic struct {
+	gp        goPanic
+	recovered bool
+}
+
+// execFrom interprets fn from block blk in frame fr. A Go panic raised below this frame runs the
+// frame's deferred calls (last first); if one of them calls recover() the panic stops and the
+// function returns through its recover block (named results as the deferred calls left them),
+// otherwise it keeps unwinding.
+func (e *Exec) execFrom(fr *Frame, fn *ssa.Function, blk *ssa.BasicBlock, name string) (ret Value) {
+	depth, frame, stack := e.depth, e.frame, len(e.callStack)
+	defer func() {
+		r := recover()
+		if r == nil {
+			return
+		}
+		gp, isGo := r.(goPanic)
+		if !isGo || len(fr.defers) == 0 {
+			panic(r)
+		}
+		e.depth, e.frame = depth, frame
+		e.callStack = e.callStack[:stack]
+		pp := &pendingPanic{gp: gp}
+		e.panics = append(e.panics, pp)
+		ds := fr.defers
+		fr.defers = nil
+		for i := len(ds) - 1; i >= 0; i-- {
+			ds[i]()
+		}
+		e.panics = e.panics[:len(e.panics)-1]
+		if !pp.recovered {
+			panic(r)
+		}
+		if fn.Recover != nil {
+			ret = e.execFrom(fr, fn, fn.Recover, name)
+			return
+		}
+		ret = e.zeroResult(fn.Signature)
+	}()
 	var prev *ssa.BasicBlock
-	blk := fn.Blocks[0]
 	visits := map[*ssa.BasicBlock]int{}
 	for {
 		visits[blk]++
@@ -733,31 +801,7 @@ func (e *Exec) run(fn *ssa.Function, args []Value, bindings []Value) Value {
 			case *ssa.Next:
 				fr.locals[in] = e.rangeNext(in, e.get(fr, in.Iter))
 			case *ssa.Defer:
-				cc := in.Common()
-				var dargs []Value
-				for _, a := range cc.Args {
-					dargs = append(dargs, e.get(fr, a))
-				}
-				var thunk func()
-				if b, ok := cc.Value.(*ssa.Builtin); ok {
-					thunk = func() { e.builtin(b.Name(), cc, dargs) }
-				} else if cc.IsInvoke() {
-					recv := e.get(fr, cc.Value)
-					thunk = func() { e.invoke(recv, cc.Method, dargs) }
-				} else if fn := cc.StaticCallee(); fn != nil {
-					if mc, ok := cc.Value.(*ssa.MakeClosure); ok {
-						var binds []Value
-						for _, b := range mc.Bindings {
-							binds = append(binds, e.get(fr, b))
-						}
-						thunk = func() { e.run(fn, dargs, binds) }
-					} else {
-						thunk = func() { e.callFunc(fn, dargs) }
-					}
-				} else {
-					fv := e.get(fr, cc.Value)
-					thunk = func() { e.callValue(fv, dargs) }
-				}
+				thunk := e.makeThunk(fr, in.Common())
 				fr.defers = append(fr.defers, thunk)
 			case *ssa.RunDefers:
 				for i := len(fr.defers) - 1; i >= 0; i-- {
@@ -792,8 +836,10 @@ func (e *Exec) run(fn *ssa.Function, args []Value, bindings []Value) Value {
 				return t
 			case *ssa.DebugRef:
 			case *ssa.Go:
+				// the goroutine runs as one atomic block at the next join point (WaitGroup.Wait), in an
+				// order that is a decision of the path: the schedule is enumerated, not sampled
 				e.events = append(e.events, "ambient: go statement @ "+e.where())
-				e.fail("go statement")
+				e.goroutines = append(e.goroutines, e.makeThunk(fr, in.Common()))
 			case *ssa.Select, *ssa.Send, *ssa.MakeChan:
 				e.events = append(e.events, "ambient: channel operation @ "+e.where())
 				e.fail("channel operation")
@@ -805,6 +851,48 @@ func (e *Exec) run(fn *ssa.Function, args []Value, bindings []Value) Value {
 			e.fail("fell off block in %s", name)
 		}
 		prev, blk = blk, next
+	}
+}
+
+// makeThunk captures a deferred or spawned call with its arguments evaluated now.
+func (e *Exec) makeThunk(fr *Frame, cc *ssa.CallCommon) func() {
+	var dargs []Value
+	for _, a := range cc.Args {
+		dargs = append(dargs, e.get(fr, a))
+	}
+	var thunk func()
+	if b, ok := cc.Value.(*ssa.Builtin); ok {
+		thunk = func() { e.builtin(b.Name(), cc, dargs) }
+	} else if cc.IsInvoke() {
+		recv := e.get(fr, cc.Value)
+		thunk = func() { e.invoke(recv, cc.Method, dargs) }
+	} else if fn := cc.StaticCallee(); fn != nil {
+		if mc, ok := cc.Value.(*ssa.MakeClosure); ok {
+			var binds []Value
+			for _, b := range mc.Bindings {
+				binds = append(binds, e.get(fr, b))
+			}
+			thunk = func() { e.run(fn, dargs, binds) }
+		} else {
+			thunk = func() { e.callFunc(fn, dargs) }
+		}
+	} else {
+		fv := e.get(fr, cc.Value)
+		thunk = func() { e.callValue(fv, dargs) }
+	}
+	return thunk
+}
+
+// joinGoroutines runs every spawned and not yet executed goroutine to completion, one after the
+// other, in every order (a fork per order). Bound: goroutines are atomic blocks, interleavings
+// inside their bodies are not explored.
+func (e *Exec) joinGoroutines() {
+	for len(e.goroutines) > 0 {
+		gs := e.goroutines
+		e.goroutines = nil
+		for _, k := range e.choicePermOf(len(gs), "schedule", "goroutine schedule enumerated") {
+			gs[k]()
+		}
 	}
 }
 
@@ -1036,18 +1124,22 @@ func (e *Exec) rangeStart(x Value) Value {
 }
 
 func (e *Exec) choicePerm(n int) []int {
+	return e.choicePermOf(n, "maporder", "map-range: iteration order enumerated")
+}
+
+func (e *Exec) choicePermOf(n int, what, note string) []int {
 	rest := make([]int, n)
 	for i := range rest {
 		rest[i] = i
 	}
 	var out []int
 	for len(rest) > 0 {
-		k := e.choice(len(rest), "maporder")
+		k := e.choice(len(rest), what)
 		out = append(out, rest[k])
 		rest = append(rest[:k:k], rest[k+1:]...)
 	}
 	if n > 1 {
-		e.events = append(e.events, "map-range: iteration order enumerated @ "+e.where())
+		e.events = append(e.events, note+" @ "+e.where())
 	}
 	return out
 }
@@ -1443,7 +1535,10 @@ func (e *Exec) builtin(name string, c *ssa.CallCommon, args []Value) Value {
 		case *SliceV:
 			return s.gocap
 		case *GSliceV:
-			return tb.BV(int64(len(s.e)), 64)
+			if s.capUnknown {
+				e.fail("cap() of a slice made with a symbolic capacity")
+			}
+			return tb.BV(int64(s.gocap()), 64)
 		}
 	case "copy":
 		return e.copyBytes(args[0], args[1])
@@ -1477,6 +1572,10 @@ func (e *Exec) builtin(name string, c *ssa.CallCommon, args []Value) Value {
 	case "print", "println":
 		return nil
 	case "recover":
+		if n := len(e.panics); n > 0 && !e.panics[n-1].recovered {
+			e.panics[n-1].recovered = true
+			return &IfaceV{t: types.Typ[types.String], v: e.constBytes(e.panics[n-1].gp.what, true)}
+		}
 		return &IfaceV{}
 	case "ssa:wrapnilchk":
 		return args[0]
@@ -1498,6 +1597,26 @@ func (e *Exec) appendBuiltin(c *ssa.CallCommon, args []Value) Value {
 		if !ok {
 			e.fail("append slice with %T", args[1])
 		}
+		if len(b.e) == 0 {
+			return a
+		}
+		if len(b.e) <= len(a.spare) && !a.capUnknown {
+			// in place: the spare cells of the backing array are overwritten and stay shared with
+			// every other view of it
+			vals := make([]Value, len(b.e))
+			for i, c := range b.e {
+				vals[i] = copyVal(c.v)
+			}
+			for i := range b.e {
+				if a.spare[i].global {
+					e.noteGlobalWrite("append into the backing array of a package-level slice", a.spare[i])
+				}
+				a.spare[i].v = vals[i]
+			}
+			k := len(b.e)
+			ne := append(append(make([]*Cell, 0, len(a.e)+k), a.e...), a.spare[:k]...)
+			return &GSliceV{e: ne, spare: a.spare[k:len(a.spare):len(a.spare)]}
+		}
 		n := &GSliceV{}
 		for _, c := range a.e {
 			n.e = append(n.e, &Cell{v: copyVal(c.v)})
@@ -1505,11 +1624,83 @@ func (e *Exec) appendBuiltin(c *ssa.CallCommon, args []Value) Value {
 		for _, c := range b.e {
 			n.e = append(n.e, &Cell{v: copyVal(c.v)})
 		}
-		n.isNil = a.isNil && len(n.e) == 0
+		var et types.Type
+		if st, ok := c.Args[0].Type().Underlying().(*types.Slice); ok {
+			et = st.Elem()
+		}
+		if et != nil && !a.capUnknown {
+			for i := growCap(a.gocap(), len(n.e), et) - len(n.e); i > 0; i-- {
+				n.spare = append(n.spare, &Cell{v: e.zero(et)})
+			}
+		}
 		return n
 	}
 	e.fail("append to %T", args[0])
 	return nil
+}
+
+var stdSizes = types.SizesFor("gc", "amd64")
+
+// Go 1.23 runtime size classes (runtime/sizeclasses.go)
+var sizeClasses = []int64{0, 8, 16, 24, 32, 48, 64, 80, 96, 112, 128, 144, 160, 176, 192, 208, 224, 240, 256, 288, 320, 352, 384, 416, 448, 480, 512, 576, 640, 704, 768, 896, 1024, 1152, 1280, 1408, 1536, 1792, 2048, 2304, 2688, 3072, 3200, 3456, 4096, 4864, 5120, 5376, 6144, 6528, 6784, 6912, 8192, 9472, 9728, 10240, 10880, 12288, 13568, 14336, 16384, 18432, 19072, 20480, 21760, 24576, 27264, 28672, 32768}
+
+func hasPointers(t types.Type) bool {
+	switch u := t.Underlying().(type) {
+	case *types.Basic:
+		return u.Kind() == types.String || u.Kind() == types.UnsafePointer
+	case *types.Struct:
+		for i := 0; i < u.NumFields(); i++ {
+			if hasPointers(u.Field(i).Type()) {
+				return true
+			}
+		}
+		return false
+	case *types.Array:
+		return u.Len() > 0 && hasPointers(u.Elem())
+	}
+	return true
+}
+
+func roundUpSize(size int64, noscan bool) int64 {
+	if size <= 32768-8 {
+		req := size
+		if !noscan && req > 512 {
+			req += 8 // malloc header
+		}
+		for _, c := range sizeClasses {
+			if c >= req {
+				return c - (req - size)
+			}
+		}
+	}
+	const page = 8192
+	return (size + page - 1) / page * page
+}
+
+// growCap is runtime.growslice's capacity for appending up to newLen elements to a slice of
+// capacity oldCap (Go 1.23: nextslicecap followed by rounding to the allocator's size class).
+func growCap(oldCap, newLen int, et types.Type) int {
+	newcap := oldCap
+	doublecap := newcap + newcap
+	switch {
+	case newLen > doublecap:
+		newcap = newLen
+	case oldCap < 256:
+		newcap = doublecap
+	default:
+		for {
+			newcap += (newcap + 3*256) >> 2
+			if newcap >= newLen {
+				break
+			}
+		}
+	}
+	esz := stdSizes.Sizeof(et)
+	if esz <= 0 {
+		return newLen
+	}
+	mem := roundUpSize(int64(newcap)*esz, !hasPointers(et))
+	return int(mem / esz)
 }
 
 // sortedFuncs lists executed functions (for evidence).
